@@ -12,6 +12,7 @@ pub mod pools;
 pub mod programs;
 pub mod steps;
 pub mod transport;
+pub mod validators;
 
 use crate::simkit::*;
 use monitors::*;
@@ -56,6 +57,13 @@ pub fn costing_of(cfg: &LCfg) -> Option<CostingParameters> {
     cp.usd_price = d(&c[2], cp.usd_price);
     cp.state_storage_price = d(&c[3], cp.state_storage_price);
     cp.archive_storage_price = d(&c[4], cp.archive_storage_price);
+    // optional: execution / finalization cost unit limits
+    if let Some(l) = c.get(5).and_then(|s| s.parse::<u32>().ok()) {
+        cp.execution_cost_unit_limit = l;
+    }
+    if let Some(l) = c.get(6).and_then(|s| s.parse::<u32>().ok()) {
+        cp.finalization_cost_unit_limit = l;
+    }
     Some(cp)
 }
 
@@ -359,6 +367,12 @@ impl LedgerCheck {
         let mut opts = opts_for(if system { &Fault::None } else { &step.fault }, system);
         if !system {
             opts.costing_parameters = costing_of(cfg);
+            if let (Body::Fund, Some(cp)) = (&step.body, opts.costing_parameters.as_mut()) {
+                // funding is infrastructure: keep the protocol's cost unit limits for it
+                let latest = CostingParameters::latest();
+                cp.execution_cost_unit_limit = latest.execution_cost_unit_limit;
+                cp.finalization_cost_unit_limit = latest.finalization_cost_unit_limit;
+            }
         }
         // the fresh-process re-run enables kernel tracing (stdout discarded): results must not change
         opts.kernel_trace = std::env::var("VERIF_KERNEL_TRACE").is_ok();
@@ -580,6 +594,7 @@ impl World for LedgerCheck {
             restarts: rng.range(0, 1) as u32,
             allow_freezable: !matches!(self.id, "C04" | "C05" | "C02") || rng.chance(1, 2),
             payer_fees: self.id == "C06",
+            royalties: if self.id == "C06" { rng.range(1, 3) as u32 } else { rng.range(0, 2) as u32 },
         };
         // C06: costing parameter swarm - protocol values, or prices with many significant decimals
         let costing = if self.id == "C06" && rng.chance(1, 2) {
@@ -599,6 +614,9 @@ impl World for LedgerCheck {
                 rng.pick(&["16.666666666666666666", "1", "0.333333333333333333", "123.456789012345678901"]).to_string(),
                 rng.pick(&["0.00009536743", "0.000000000000000007", "0.000123456789012345"]).to_string(),
                 rng.pick(&["0.00009536743", "0.000000000000000007", "0.000123456789012345"]).to_string(),
+                // cost unit limits: protocol values, or low enough for ordinary transactions to hit them
+                rng.pick(&["100000000", "100000000", "3000000", "1500000"]).to_string(),
+                rng.pick(&["50000000", "50000000", "200000", "120000", "60000"]).to_string(),
             ])
         } else {
             None
